@@ -215,7 +215,8 @@ struct Runner {
           held.clear();
           op_begin(oi);
           unodb::this_thread().qsbr_pause();
-          point(K_HARNESS, nullptr);
+          // stay paused for o.a + 1 scheduling points (o.b != 0: yielding, so that the others run on with fewer registered threads)
+          for (int64_t k = 0; k <= o.a; k++) point(o.b ? K_SPIN : K_HARNESS, nullptr);
           unodb::this_thread().qsbr_resume();
           op_end();
           log->pauses++;
